@@ -55,8 +55,8 @@ NSH = 16
 ALPHA = ["a", "b", " ", "é"]
 TP_ALPHA = ["A", "b", "/", "1"]
 CASE_ALPHA = ["a", "B", "é", " "]
-NEEDLES = ["", "a", "b", "é", "aa", "ab", "ba", "bb", "aé", "éb", "a b", "b a", "a a"]
-NEEDLES_Q = ["", "a", "b", "ab", "é", "a b"]
+NEEDLES = ["", " ", "a", "b", "é", "aa", "ab", "ba", "bb", "aé", "éb", "a b", "b a", "a a"]
+NEEDLES_Q = ["", " ", "a", "b", "ab", "é", "a b"]
 PADS = [None, "", "x", "ab", "abc", "é-"]
 REPLS = ["", "a", "X", "ab"]
 INTS = [str(i) for i in range(-10, 11)]
@@ -72,7 +72,7 @@ def params(tier):
                 "L_repl": 3, "L_url": 1, "triples": 4, "expr_rand": 1400, "str_rand": 2500, "plural": 120,
                 "fmt_per_cell": 1}
     return {"L_sub": 4, "L_pos": 4, "L_expl": 4, "expl_full": True, "L_pad": 4, "L_tp": 5, "L_case": 5, "L_len": 5,
-            "L_repl": 4, "L_url": 2, "triples": 10, "expr_rand": 120000, "str_rand": 150000, "plural": 3000,
+            "L_repl": 4, "L_url": 2, "triples": 10, "expr_rand": 200000, "str_rand": 250000, "plural": 3000,
             "fmt_per_cell": 12}
 
 
@@ -86,6 +86,9 @@ def shards(tier, seed):
 
 
 def floors(tier):
+    # operator pairs: 18 x 18 x 2 = 648, minus (round, ^ | / | div, right) whose right operand is always a float
+    # (the round primitive raises on it: skipped); unary pairs: 16 x 18 x 3 = 864, minus the 9 float-valued
+    # functions as right operand of round
     f = {"oracle.expr.rendering": 20000, "oracle.expr.ast": 5000, "sets.expr.pairs": 645, "sets.expr.unary_pairs": 850,
          "sets.expr.renderings": 5, "sets.str.fns": 15, "sets.locales": 96, "sets.locale_settings": 8,
          "oracle.formatnum.forward": 96 * 84, "oracle.formatnum.reverse": 96 * 84, "oracle.formatnum.roundtrip": 96 * 84,
